@@ -17,11 +17,12 @@ import (
 
 // what one sender does, in order
 type action struct {
-	Kind int    `json:"kind"` // 0 normal, 1 high, 2 max, 3 exit signal
+	Kind int    `json:"kind"` // 0 normal (plain Send), 1 high, 2 max, 3 exit signal, 9 a High/Max send to a process that does not exist (fails; not an item)
 	Addr string `json:"addr"` // pid, name, alias (kinds 0..2)
 	Seq  int    `json:"seq"`
 }
 type pCase struct {
+	Recv    string     `json:"recv,omitempty"` // receiver's loop: "" / actor (act.Actor), sup (act.Supervisor), pool (act.Pool with one worker)
 	Senders [][]action `json:"senders"`
 	Logs    int        `json:"logs"`   // log messages enqueued in phase 1 (the receiver is a logger)
 	Phase2  [][]action `json:"phase2"` // enqueued while the receiver is parked inside the first HandleLog
@@ -44,8 +45,8 @@ type script struct {
 
 type handledItem struct{ Sender, Kind, Seq int }
 
-type receiver struct {
-	act.Actor
+// recvCore: what every kind of receiver shares (the log of handled items, the parking gates)
+type recvCore struct {
 	mu       sync.Mutex
 	log      []handledItem
 	parked   chan struct{}
@@ -59,6 +60,11 @@ type receiver struct {
 	release2    chan struct{}
 	parkLog     bool
 	loggedFirst bool
+}
+
+type receiver struct {
+	act.Actor
+	*recvCore
 }
 
 func (r *receiver) HandleLog(message gen.MessageLog) error {
@@ -86,15 +92,21 @@ func (r *receiver) Init(args ...any) error {
 }
 
 func (r *receiver) HandleMessage(from gen.PID, message any) error {
+	r.handle(r, message)
+	return nil
+}
+
+// handle: the body of HandleMessage of every receiver kind (p = the receiving process)
+func (r *recvCore) handle(p gen.Process, message any) {
 	switch m := message.(type) {
 	case setupMsg:
-		a, err := r.CreateAlias()
+		a, err := p.CreateAlias()
 		if err != nil {
 			r.setupErr = err
 		}
 		r.alias = a
 		for _, v := range r.victims {
-			if err := r.MonitorPID(v); err != nil {
+			if err := p.MonitorPID(v); err != nil {
 				r.setupErr = err
 			}
 		}
@@ -117,6 +129,59 @@ func (r *receiver) HandleMessage(from gen.PID, message any) error {
 		r.log = append(r.log, handledItem{1000 + int(m.PID.ID%1000), 4, 0})
 		r.mu.Unlock()
 	}
+}
+
+// the same receiver on the dequeue loop of act.Supervisor (one idle child, state normal)
+type supReceiver struct {
+	act.Supervisor
+	*recvCore
+	child gen.Atom
+}
+
+func (r *supReceiver) Init(args ...any) (act.SupervisorSpec, error) {
+	spec := act.SupervisorSpec{Type: act.SupervisorTypeOneForOne}
+	spec.Restart.Strategy = act.SupervisorStrategyTemporary
+	spec.Children = []act.SupervisorChildSpec{{Name: r.child, Factory: func() gen.ProcessBehavior { return &victim{} }}}
+	return spec, nil
+}
+
+func (r *supReceiver) HandleMessage(from gen.PID, message any) error {
+	r.handle(r, message)
+	return nil
+}
+
+// ... and on the loop of act.Pool: High / Max messages and down notifications are handled by the pool
+// process itself, Normal ones are forwarded (in dequeue order) to its single worker, which logs them
+type poolReceiver struct {
+	act.Pool
+	*recvCore
+}
+
+func (r *poolReceiver) Init(args ...any) (act.PoolOptions, error) {
+	return act.PoolOptions{PoolSize: 1, WorkerFactory: func() gen.ProcessBehavior { return &poolRecvWorker{} }, WorkerArgs: []any{r.recvCore}}, nil
+}
+
+func (r *poolReceiver) HandleMessage(from gen.PID, message any) error {
+	r.handle(r, message)
+	return nil
+}
+
+type poolRecvWorker struct {
+	act.Actor
+	core *recvCore
+}
+
+func (w *poolRecvWorker) Init(args ...any) error {
+	w.core = args[0].(*recvCore)
+	return nil
+}
+
+func (w *poolRecvWorker) HandleMessage(from gen.PID, message any) error {
+	if m, ok := message.(itemMsg); ok {
+		w.core.mu.Lock()
+		w.core.log = append(w.core.log, handledItem{m.Sender, m.Kind, m.Seq})
+		w.core.mu.Unlock()
+	}
 	return nil
 }
 
@@ -129,6 +194,19 @@ func (s *senderActor) HandleMessage(from gen.PID, message any) error {
 	}
 	for _, a := range sc.Actions {
 		var err error
+		if a.Kind == 9 {
+			// a failing priority send must leave the sender's own priority as it was: the plain Sends that
+			// follow are Normal again
+			prio := gen.MessagePriorityHigh
+			if a.Seq%2 == 0 {
+				prio = gen.MessagePriorityMax
+			}
+			nobody := gen.PID{Node: sc.PID.Node, ID: sc.PID.ID + 1000000, Creation: sc.PID.Creation}
+			if s.SendWithPriority(nobody, itemMsg{sc.ID, 9, a.Seq}, prio) == nil {
+				fmt.Fprintln(os.Stderr, "send to a non-existent process succeeded")
+			}
+			continue
+		}
 		if a.Kind == 3 {
 			err = s.SendExit(sc.PID, fmt.Errorf("x-%d-%d", sc.ID, a.Seq))
 		} else {
@@ -146,7 +224,11 @@ func (s *senderActor) HandleMessage(from gen.PID, message any) error {
 			case "alias":
 				to = sc.Alias
 			}
-			err = s.SendWithPriority(to, itemMsg{sc.ID, a.Kind, a.Seq}, prio)
+			if a.Kind == 0 {
+				err = s.Send(to, itemMsg{sc.ID, a.Kind, a.Seq}) // the sender's own (default: Normal) priority
+			} else {
+				err = s.SendWithPriority(to, itemMsg{sc.ID, a.Kind, a.Seq}, prio)
+			}
 		}
 		if err != nil {
 			fmt.Fprintln(os.Stderr, "send failed:", err)
@@ -165,12 +247,24 @@ func genPCase(r *rand.Rand) pCase {
 		var acts []action
 		n := 2 + r.Intn(12)
 		for i := 0; i < n; i++ {
-			a := action{Kind: []int{0, 0, 0, 1, 1, 2, 2, 3}[r.Intn(8)], Addr: []string{"pid", "name", "alias"}[r.Intn(3)], Seq: i}
+			a := action{Kind: []int{0, 0, 0, 1, 1, 2, 2, 3, 0, 9}[r.Intn(10)], Addr: []string{"pid", "name", "alias"}[r.Intn(3)], Seq: i}
 			acts = append(acts, a)
 		}
 		c.Senders = append(c.Senders, acts)
 	}
 	c.Downs = []int{0, 0, 1, 2}[r.Intn(4)]
+	c.Recv = []string{"actor", "actor", "sup", "pool"}[r.Intn(4)]
+	if c.Recv != "actor" {
+		// an exit signal ends a supervisor / pool, and neither can be a logger: Max priority instead
+		for _, acts := range c.Senders {
+			for i := range acts {
+				if acts[i].Kind == 3 {
+					acts[i].Kind = 2
+				}
+			}
+		}
+		return c
+	}
 	if r.Intn(2) == 0 {
 		// the receiver is also a logger: log messages (lowest class), and a second phase in which
 		// higher-class traffic arrives while the first log message is being handled
@@ -188,6 +282,16 @@ func genPCase(r *rand.Rand) pCase {
 
 var pseq int
 
+func nItems(acts []action) int {
+	n := 0
+	for _, a := range acts {
+		if a.Kind != 9 {
+			n++
+		}
+	}
+	return n
+}
+
 func runPCase(node gen.Node, c pCase) (string, error) {
 	pseq++
 	name := gen.Atom(fmt.Sprintf("recv%d", pseq))
@@ -199,9 +303,18 @@ func runPCase(node gen.Node, c pCase) (string, error) {
 		}
 		victims = append(victims, v)
 	}
-	rc := &receiver{parked: make(chan struct{}), release: make(chan struct{}), ready: make(chan struct{}), victims: victims,
+	rc := &recvCore{parked: make(chan struct{}), release: make(chan struct{}), ready: make(chan struct{}), victims: victims,
 		inlog: make(chan struct{}), release2: make(chan struct{}), parkLog: c.Logs > 0 && len(c.Phase2) > 0}
-	rpid, err := node.SpawnRegister(name, func() gen.ProcessBehavior { return rc }, gen.ProcessOptions{})
+	factory := func() gen.ProcessBehavior { return &receiver{recvCore: rc} }
+	switch c.Recv {
+	case "sup":
+		factory = func() gen.ProcessBehavior {
+			return &supReceiver{recvCore: rc, child: gen.Atom(fmt.Sprintf("recvchild%d", pseq))}
+		}
+	case "pool":
+		factory = func() gen.ProcessBehavior { return &poolReceiver{recvCore: rc} }
+	}
+	rpid, err := node.SpawnRegister(name, factory, gen.ProcessOptions{})
 	if err != nil {
 		return "", err
 	}
@@ -212,7 +325,8 @@ func runPCase(node gen.Node, c pCase) (string, error) {
 		}
 		defer node.LoggerDeletePID(rpid)
 	}
-	node.Send(rpid, setupMsg{})
+	// High priority: a pool forwards Normal messages to its worker instead of handling them
+	node.SendWithPriority(rpid, setupMsg{}, gen.MessagePriorityHigh)
 	select {
 	case <-rc.ready:
 	case <-time.After(5 * time.Second):
@@ -221,7 +335,7 @@ func runPCase(node gen.Node, c pCase) (string, error) {
 	if rc.setupErr != nil {
 		return "", rc.setupErr
 	}
-	if err := node.Send(rpid, parkMsg{}); err != nil {
+	if err := node.SendWithPriority(rpid, parkMsg{}, gen.MessagePriorityHigh); err != nil {
 		return "", err
 	}
 	select {
@@ -241,7 +355,7 @@ func runPCase(node gen.Node, c pCase) (string, error) {
 		d := make(chan struct{})
 		dones = append(dones, d)
 		node.Send(sp, script{ID: i + 1, Actions: acts, PID: rpid, Name: name, Alias: rc.alias, Done: d})
-		expected += len(acts)
+		expected += nItems(acts)
 	}
 	for _, v := range victims {
 		node.Kill(v)
@@ -293,7 +407,7 @@ func runPCase(node gen.Node, c pCase) (string, error) {
 			d := make(chan struct{})
 			dones2 = append(dones2, d)
 			node.Send(sp, script{ID: 100 + i + 1, Actions: acts, PID: rpid, Name: name, Alias: rc.alias, Done: d})
-			exp2 += len(acts)
+			exp2 += nItems(acts)
 		}
 		for _, d := range dones2 {
 			select {
@@ -331,6 +445,9 @@ func runPCase(node gen.Node, c pCase) (string, error) {
 	for i, acts := range c.Senders {
 		var l []string
 		for _, a := range acts {
+			if a.Kind == 9 {
+				continue
+			}
 			l = append(l, fmt.Sprintf("mk_item %d %d %d", i+1, a.Kind, a.Seq))
 		}
 		sent = append(sent, "["+strings.Join(l, "; ")+"]")
@@ -350,6 +467,9 @@ func runPCase(node gen.Node, c pCase) (string, error) {
 		for i, acts := range c.Phase2 {
 			var l []string
 			for _, a := range acts {
+				if a.Kind == 9 {
+					continue
+				}
 				l = append(l, fmt.Sprintf("mk_item %d %d %d", 100+i+1, a.Kind, a.Seq))
 			}
 			sent2 = append(sent2, "["+strings.Join(l, "; ")+"]")
@@ -393,6 +513,11 @@ func runParked(n int, out string, replay json.RawMessage) {
 			continue
 		}
 		o.Add(term, c)
+		if c.Recv == "" {
+			o.Stats["receiver:actor"]++
+		} else {
+			o.Stats["receiver:"+c.Recv]++
+		}
 		o.Stats[fmt.Sprintf("senders:%d", len(c.Senders))]++
 		o.Stats[fmt.Sprintf("downs:%d", c.Downs)]++
 		if c.Logs > 0 {
